@@ -404,6 +404,9 @@ fn check_proposal(
             }
             if anchor < target - u32::from(pol.trusted()) {
                 bucketed = true;
+                if std::env::var("C08_DEBUG_ANCHOR").is_ok() {
+                    eprintln!("anchor {anchor} target {target} req {}", req.key());
+                }
             }
             for n in si_.notes().iter() {
                 let pool = pool_of(n.note().pool());
@@ -538,12 +541,13 @@ fn rq(entry: Entry, amt: Amt, rcpt: Rcpt, conf: Conf, lockpol: LockPol, chg: Chg
     Req { entry, amt, rcpt, conf, lockpol, chg, pools, everything, lock: None }
 }
 
-pub fn lattice(thorough: bool) -> Lattice {
+/// Three sizes of the request lattice: level 0 = core, 1 = quick, 2 = thorough.
+pub fn lattice(level: usize) -> Lattice {
     use Amt::*;
     let mut v = vec![];
     let confs = [Conf::Min, Conf::Default];
     let lps = [LockPol::Exclude, LockPol::PreferUnlockedX, LockPol::PreferLockedX, LockPol::PreferUnlockedXY];
-    if thorough {
+    if level >= 2 {
         let amts = [Fixed(30_000), Fixed(100_000), Fixed(1_000_000), Fixed(1_250_000), UbMinus(MIN_FEE), UbMinus(MIN_FEE - 1), UbPlus(1)];
         for a in amts {
             for r in [Rcpt::Sapling, Rcpt::Unified, Rcpt::Transparent, Rcpt::Tex] {
@@ -593,10 +597,10 @@ pub fn lattice(thorough: bool) -> Lattice {
             reqs: v,
             describe: "thorough: propose_transfer {30k,100k,1M(canonical ZIP 318),1.25M,UB-10000,UB-9999,UB+1} x {Sapling,UA/Orchard,P2PKH,TEX} x {MIN,3/10} x {Exclude,PreferUnlocked{X},PreferLocked{X},PreferUnlocked{X,Y}} x {single,split change}; \
                        Sapling-only spend policy for 3 amounts x 2 recipients x 2 x 2; propose_standard_transfer_to_address 7 amounts x 3 recipients x 2 policies; propose_send_max_transfer 4 recipients x 2 x 4 x {all pools,Sapling only} x {MaxSpendable,Everything}, \
-                       each followed by propose_transfer of exactly the send-max amount and of that amount + 1 (single and split change)"
+                       each MaxSpendable one followed by propose_transfer of exactly the send-max amount and of that amount + 1 (single and split change)"
                 .into(),
         }
-    } else {
+    } else if level == 1 {
         for a in [Fixed(30_000), Fixed(100_000), Fixed(1_000_000), UbMinus(MIN_FEE - 1)] {
             for r in [Rcpt::Sapling, Rcpt::Unified] {
                 for c in confs {
@@ -625,29 +629,56 @@ pub fn lattice(thorough: bool) -> Lattice {
         for c in confs {
             v.push(rq(Entry::Transfer, Fixed(100_000), Rcpt::Sapling, c, LockPol::PreferUnlockedX, Chg::Single, Pools::SaplingOnly, false));
         }
-        for a in [Fixed(30_000), Fixed(1_250_000)] {
+        for c in confs {
             for r in [Rcpt::Sapling, Rcpt::Unified, Rcpt::Transparent] {
-                for c in confs {
-                    v.push(rq(Entry::Standard, a, r, c, LockPol::Exclude, Chg::Single, Pools::All, false));
-                }
+                v.push(rq(Entry::Standard, Fixed(1_250_000), r, c, LockPol::Exclude, Chg::Single, Pools::All, false));
             }
+            v.push(rq(Entry::Standard, Fixed(30_000), Rcpt::Transparent, c, LockPol::Exclude, Chg::Single, Pools::All, false));
         }
         for r in [Rcpt::Sapling, Rcpt::Unified] {
             for c in confs {
                 for l in [LockPol::Exclude, LockPol::PreferUnlockedXY] {
                     v.push(rq(Entry::SendMax, Fixed(0), r, c, l, Chg::Single, Pools::All, false));
-                    v.push(rq(Entry::SendMax, Fixed(0), r, c, l, Chg::Single, Pools::All, true));
-                    for x in [0, 1] {
-                        v.push(rq(Entry::Transfer, MaxPlus(x), r, c, l, Chg::Single, Pools::All, false));
-                    }
+                }
+                v.push(rq(Entry::SendMax, Fixed(0), r, c, LockPol::Exclude, Chg::Single, Pools::All, true));
+                for x in [0, 1] {
+                    v.push(rq(Entry::Transfer, MaxPlus(x), r, c, LockPol::Exclude, Chg::Single, Pools::All, false));
                 }
             }
         }
         Lattice {
             reqs: v,
             describe: "quick (pruned): propose_transfer {30k,100k,1M,UB-9999} x {Sapling,UA/Orchard} x {MIN,3/10} x 4 lock policies, single change; split change for {30k,100k} x 2 recipients x 2 x {Exclude,PreferLocked{X}}; \
-                       P2PKH and TEX recipients for 30k x 2 x {Exclude,PreferUnlocked{X,Y}}; one Sapling-only spend policy request per confirmation policy; propose_standard_transfer_to_address {30k,1.25M} x 3 recipients x 2; \
-                       propose_send_max_transfer 2 recipients x 2 x {Exclude,PreferUnlocked{X,Y}} x {MaxSpendable,Everything}, each followed by propose_transfer of exactly that amount and of that amount + 1"
+                       P2PKH and TEX recipients for 30k x 2 x {Exclude,PreferUnlocked{X,Y}}; one Sapling-only spend policy request per confirmation policy; propose_standard_transfer_to_address 1.25M x 3 recipients x 2 and 30k to P2PKH x 2; \
+                       propose_send_max_transfer 2 recipients x 2 x {Exclude,PreferUnlocked{X,Y}} MaxSpendable and x Exclude Everything, the Exclude one followed by propose_transfer of exactly that amount and of that amount + 1"
+                .into(),
+        }
+    } else {
+        for a in [Fixed(30_000), Fixed(100_000)] {
+            for r in [Rcpt::Sapling, Rcpt::Unified] {
+                for c in confs {
+                    for l in [LockPol::Exclude, LockPol::PreferLockedX] {
+                        v.push(rq(Entry::Transfer, a, r, c, l, Chg::Single, Pools::All, false));
+                    }
+                }
+            }
+        }
+        for l in [LockPol::Exclude, LockPol::PreferUnlockedXY] {
+            v.push(rq(Entry::Transfer, UbMinus(MIN_FEE - 1), Rcpt::Sapling, Conf::Min, l, Chg::Single, Pools::All, false));
+        }
+        v.push(rq(Entry::Transfer, Fixed(1_000_000), Rcpt::Unified, Conf::Default, LockPol::Exclude, Chg::Single, Pools::All, false));
+        v.push(rq(Entry::Transfer, Fixed(30_000), Rcpt::Tex, Conf::Min, LockPol::Exclude, Chg::Single, Pools::All, false));
+        v.push(rq(Entry::Transfer, Fixed(100_000), Rcpt::Sapling, Conf::Min, LockPol::PreferUnlockedX, Chg::Split, Pools::All, false));
+        for c in confs {
+            for l in [LockPol::Exclude, LockPol::PreferUnlockedXY] {
+                v.push(rq(Entry::SendMax, Fixed(0), Rcpt::Sapling, c, l, Chg::Single, Pools::All, false));
+            }
+        }
+        v.push(rq(Entry::SendMax, Fixed(0), Rcpt::Unified, Conf::Min, LockPol::PreferUnlockedX, Chg::Single, Pools::All, false));
+        Lattice {
+            reqs: v,
+            describe: "core: propose_transfer {30k,100k} x {Sapling,UA/Orchard} x {MIN,3/10} x {Exclude,PreferLocked{X}}; UB-9999 to Sapling under MIN x {Exclude,PreferUnlocked{X,Y}}; 1M to UA under 3/10; 30k to TEX; 100k split change PreferUnlocked{X}; \
+                       propose_send_max_transfer (MaxSpendable: selects every eligible note) to Sapling x {MIN,3/10} x {Exclude,PreferUnlocked{X,Y}} and to UA under MIN PreferUnlocked{X}"
                 .into(),
         }
     }
